@@ -4,7 +4,9 @@
 package c02
 
 import (
+	"encoding/json"
 	"fmt"
+	"github.com/ohler55/ojg"
 	"regexp"
 	"strings"
 
@@ -225,7 +227,44 @@ func (s *state) check(x []byte, src string, cs map[string]any) {
 	if c.WantSample() && len(x) > 6 {
 		c.Sample(map[string]any{"input": mon.B(x), "source": src, "reference_value": clipS(want.String())})
 	}
-	first := true
+	sawBig := s.decodeAll(x, src, cs, want, "")
+	if sawBig {
+		// the package-level default for numbers that fit neither int64 nor float64: with NumConvString they
+		// come back as the string of their digits; nothing else may change and no number may get lost
+		old := ojg.DefaultNumConvMethod
+		ojg.DefaultNumConvMethod = ojg.NumConvString
+		jsonref.NumAsStringOK = true
+		c.Cover("default-numconv:string")
+		s.decodeAll(x, src, cs, want, " with ojg.DefaultNumConvMethod=NumConvString")
+		ojg.DefaultNumConvMethod = old
+		jsonref.NumAsStringOK = false
+	}
+}
+
+// hasBig: some number of the value came back in a big-number form.
+func hasBig(v any) bool {
+	switch t := v.(type) {
+	case json.Number:
+		return true
+	case []any:
+		for _, e := range t {
+			if hasBig(e) {
+				return true
+			}
+		}
+	case map[string]any:
+		for _, e := range t {
+			if hasBig(e) {
+				return true
+			}
+		}
+	}
+	return false
+}
+
+func (s *state) decodeAll(x []byte, src string, cs map[string]any, want *jsonref.Value, suffix string) (sawBig bool) {
+	c := s.c
+	first := suffix == ""
 	for di := range decoders.All {
 		d := &decoders.All[di]
 		for pi, pl := range s.plans {
@@ -238,6 +277,7 @@ func (s *state) check(x []byte, src string, cs map[string]any) {
 			if pi > 0 {
 				entry += "(1-byte reads)"
 			}
+			entry += suffix
 			if err != nil {
 				if strings.HasPrefix(err.Error(), "PANIC") {
 					c.Cover("panics-left-to-C06")
@@ -251,6 +291,7 @@ func (s *state) check(x []byte, src string, cs map[string]any) {
 				reprOf(got, c)
 				first = false
 			}
+			sawBig = sawBig || hasBig(got)
 			ok, why := jsonref.EqualGo(want, got, "$")
 			if ok {
 				continue
@@ -258,6 +299,7 @@ func (s *state) check(x []byte, src string, cs map[string]any) {
 			c.Violation(entry, "value", src+"/"+classify(why), withInput(cs, x), clipS(want.String()), why)
 		}
 	}
+	return sawBig
 }
 
 func withInput(cs map[string]any, x []byte) map[string]any {
